@@ -367,3 +367,133 @@ impl<const KIND: u8> Interface for CtrlMock<'_, KIND> {
         Ok(())
     }
 }
+
+// ------------------------------------------------------------------ framebuffer-simulating controller
+pub const FW: usize = 5;
+pub const FH: usize = 4;
+pub const UNTOUCHED: u16 = 0xFFFF;
+
+/// Interface mock that behaves like a MIPI-DCS controller with a FW x FH framebuffer (executable twin of `Ctrl::step`,
+/// DESIGN.md 3.2): decodes 0x36 / 0x2A / 0x2B / 0x2C and RGB565 pixel data (two bytes per pixel, MSB first) into `fb`,
+/// honouring MV/MX/MY, and records every protocol violation the properties name.
+pub struct FbIface {
+    pub madctl: u8,
+    pub col: (u16, u16),
+    pub page: (u16, u16),
+    pub have_col: bool,
+    pub have_page: bool,
+    pub armed: bool,
+    pub ptr: (u16, u16),
+    pub in_window: u32,
+    pub fb: [[u16; FW]; FH],
+    /// C08 violations
+    pub bad_frame: bool,     // pixel data without preceding CASET, RASET, RAMWR in that order / wrong parameter count
+    pub bad_window: bool,    // start > end
+    pub outside_fb: bool,    // window end outside the framebuffer as seen under the current address mode
+    pub overrun: bool,       // more pixels than the window holds (write pointer wrapped)
+    pub other_cmd: bool,     // any command other than 0x2A/0x2B/0x2C during drawing
+    pub windows: u32,
+    pub bursts: u32,
+    pub pixels: u32,
+    pub seq: u8,             // 0 idle, 1 after CASET, 2 after RASET, 3 after RAMWR
+}
+impl FbIface {
+    pub fn new(madctl: u8) -> Self {
+        FbIface { madctl, col: (0, 0), page: (0, 0), have_col: false, have_page: false, armed: false, ptr: (0, 0), in_window: 0,
+                  fb: [[UNTOUCHED; FW]; FH], bad_frame: false, bad_window: false, outside_fb: false, overrun: false, other_cmd: false,
+                  windows: 0, bursts: 0, pixels: 0, seq: 0 }
+    }
+    pub fn c08_ok(&self) -> bool {
+        !self.bad_frame && !self.bad_window && !self.outside_fb && !self.overrun && !self.other_cmd
+    }
+    fn put(&mut self, colour: u16) {
+        if !self.armed { self.bad_frame = true; return; }
+        let area = (self.col.1 as u32 - self.col.0 as u32 + 1) * (self.page.1 as u32 - self.page.0 as u32 + 1);
+        if self.in_window >= area { self.overrun = true; }
+        let (c, r) = self.ptr;
+        let (mv, mx, my) = (self.madctl & 0x20 != 0, self.madctl & 0x40 != 0, self.madctl & 0x80 != 0);
+        let (pc, pr) = if mv { (r as usize, c as usize) } else { (c as usize, r as usize) };
+        if pc < FW && pr < FH {
+            let pc = if mx { FW - 1 - pc } else { pc };
+            let pr = if my { FH - 1 - pr } else { pr };
+            self.fb[pr][pc] = colour;
+        } else {
+            self.outside_fb = true;
+        }
+        self.in_window += 1;
+        self.pixels += 1;
+        // advance the write pointer row-major inside the window, wrapping like the controller does
+        if c >= self.col.1 {
+            let nr = if r >= self.page.1 { self.page.0 } else { r + 1 };
+            self.ptr = (self.col.0, nr);
+        } else {
+            self.ptr = (c + 1, r);
+        }
+    }
+}
+impl Interface for FbIface {
+    type Word = u8;
+    type Error = MockError;
+    const KIND: InterfaceKind = InterfaceKind::Serial4Line;
+    fn send_command(&mut self, command: u8, args: &[u8]) -> Result<(), MockError> {
+        self.armed = false;
+        let mv = self.madctl & 0x20 != 0;
+        match command {
+            0x36 => { if args.len() == 1 { self.madctl = args[0]; } else { self.bad_frame = true; } self.seq = 0; }
+            0x2A | 0x2B => {
+                if args.len() != 4 { self.bad_frame = true; return Ok(()); }
+                let s = u16::from_be_bytes([args[0], args[1]]);
+                let e = u16::from_be_bytes([args[2], args[3]]);
+                if s > e { self.bad_window = true; }
+                let limit = if (command == 0x2A) != mv { FW } else { FH };
+                if e as usize >= limit { self.outside_fb = true; }
+                if command == 0x2A {
+                    if self.seq != 0 { self.bad_frame = true; }
+                    self.col = (s, e); self.have_col = true; self.seq = 1; self.windows += 1;
+                } else {
+                    if self.seq != 1 { self.bad_frame = true; }
+                    self.page = (s, e); self.have_page = true; self.seq = 2;
+                }
+            }
+            0x2C => {
+                if self.seq != 2 || args.len() != 0 { self.bad_frame = true; }
+                self.seq = 3;
+                if self.have_col && self.have_page && !self.bad_window {
+                    self.armed = true;
+                    self.ptr = (self.col.0, self.page.0);
+                    self.in_window = 0;
+                }
+            }
+            _ => { self.other_cmd = true; self.seq = 0; }
+        }
+        Ok(())
+    }
+    fn send_pixels<const N: usize>(&mut self, pixels: impl IntoIterator<Item = [u8; N]>) -> Result<(), MockError> {
+        if self.seq != 3 { self.bad_frame = true; }
+        self.bursts += 1;
+        for p in pixels {
+            if N == 2 { self.put(u16::from_be_bytes([p[0], p[1]])); } else { self.bad_frame = true; }
+        }
+        self.armed = false;
+        self.seq = 0;
+        Ok(())
+    }
+    fn send_repeated_pixel<const N: usize>(&mut self, pixel: [u8; N], count: u32) -> Result<(), MockError> {
+        if self.seq != 3 { self.bad_frame = true; }
+        self.bursts += 1;
+        let mut i = 0;
+        while i < count {
+            if N == 2 { self.put(u16::from_be_bytes([pixel[0], pixel[1]])); } else { self.bad_frame = true; }
+            i += 1;
+        }
+        self.armed = false;
+        self.seq = 0;
+        Ok(())
+    }
+}
+
+/// where the statement says logical (x, y) lands in the simulated framebuffer
+pub fn oracle_fb_cell(o: &ModelOptions, x: i64, y: i64) -> (usize, usize) {
+    let pc = oracle_panel_cell(o.orientation, o.display_size.0 as i64, o.display_size.1 as i64, x, y);
+    ((o.display_offset.0 as i64 + pc.0) as usize, (o.display_offset.1 as i64 + pc.1) as usize)
+}
